@@ -485,7 +485,7 @@ func vfC10(c *hx.Ctx) {
 	}{{"", 0, 0}, {"aes-128", 0, 0}, {"aes-gcm", 0, 0}, {"", 2, 1}, {"aes-128", 3, 2}, {"aes-gcm", 1, 1}}
 	per = (len(classes) + max(c.Of, 1) - 1) / max(c.Of, 1)
 	for _, cl := range classes {
-		cf := vfPairCfg{Cipher: cl.ciph, DS: cl.ds, PS: cl.ps, SDS: -1, Stream: true, NoDelay: [4]int{1, 10, 2, 1}, Writes: []int{1300, 1300, 700, 1300}, ReadBuf: 4096,
+		cf := vfPairCfg{Cipher: cl.ciph, DS: cl.ds, PS: cl.ps, SDS: -1, Stream: true, NoDelay: [4]int{1, 10, 2, 1}, Writes: []int{1300, 1300, 700, 3100}, ReadBuf: 4096,
 			Pool: vrt.PoolEager, Preempt: 1, Switch: 1, Select: 1, Wire: true, Owners: []string{"C10:"}, HorizonS: 60, K: 2, Fates: []int{vfDeliver, vfDrop}}
 		overhead := 0
 		if cl.ciph == "aes-gcm" {
@@ -649,12 +649,16 @@ func vfC10(c *hx.Ctx) {
 				vfResetGlobals()
 				// (2^31-1 is left out for the raw core: it is accepted and allocates a 6 GB staging buffer, which is
 				// an unrecoverable out-of-memory abort under the worker's memory cap rather than an observable verdict)
-				alpha := append(append([]int{}, vfMtuAlphabet[:len(vfMtuAlphabet)-1]...), 26, 100, 1000, 2000, 1524, 1525)
+				alpha := append(append([]int{}, vfMtuAlphabet[:len(vfMtuAlphabet)-1]...), 26, 100, 1000, 2000, 1524, 1525, 4272, 4273, 4500, 6000, 20000)
 				v = alpha[vrt.Choose(len(alpha), "mtu value")]
 				pos = vrt.Choose(3, "position")
-				cf := vfSimCfg{Mode: "session", Stream: true, SndWnd: [2]int{2, 2}, RcvWnd: [2]int{8, 8}, NoDelay: [4]int{1, 10, 2, 1}, Delay: 5, HorizonMs: 60000, PauseAfter: -1,
+				wnd := []int{2, 8}[vrt.Choose(2, "send window")] // 8: several full-size segments leave in one flush
+				cf := vfSimCfg{Mode: "session", Stream: true, SndWnd: [2]int{wnd, wnd}, RcvWnd: [2]int{8, 8}, NoDelay: [4]int{1, 10, 2, 1}, Delay: 5, HorizonMs: 60000, PauseAfter: -1,
 					K: 3, Fates: []int{vfDeliver, vfDrop}}
 				cf.Writes[0] = []int{1300, 600, 1300, 1300, 1900, 100}
+				if v >= 1000 {
+					cf.Writes[0] = append(cf.Writes[0], 7000, 3000) // several full-size segments per flush (with a tiny mss this would be 10^4 segments)
+				}
 				cf.Trace = hx.Tracing
 				s = vfNewSim(cf)
 				s.owners = []string{"C10:", "C01:", "C02:"}
